@@ -106,6 +106,9 @@ type vfDialIn struct {
 	frames                    bool
 	bigFrames                 bool
 	second                    bool
+	certName                  string // "" = valid for the name the client must verify
+	certTrusted               bool
+	nilTLSConfig              bool
 }
 
 // vfHeadBytes renders a response head a real HTTP/1.1 parser reads back as the
@@ -129,11 +132,11 @@ func vfH_dial_logic() {
 	vfInit()
 	vfClockMaxStep(int64(writeWait))
 	vfReqLog, vfRespQueue, vfTLSLog, vfTLSConns = nil, nil, nil, nil
-	vfTLSFail, vfReqWriteFail, vfDefaultDialerUsed, vfDefaultDialConn = 0, 0, 0, nil
+	vfTLSPeers, vfReqWriteFail, vfDefaultDialerUsed, vfDefaultDialConn = nil, 0, 0, nil
 	kr := &vfRand{}
 	rand.Reader = kr
 	in := vfDialIn{scheme: "ws", host: "example.com", path: "/chat", d: &Dialer{}, ctx: &vfCtx{}, code: 101, status: "101 Switching Protocols",
-		upg: []string{"websocket"}, con: []string{"Upgrade"}, hookCtx: true}
+		upg: []string{"websocket"}, con: []string{"Upgrade"}, hookCtx: true, certTrusted: true}
 	var callerHdr http.Header
 	faultAt, faultKind := -1, 0
 	forbidden := false // the caller tried to set a protocol-owned header
@@ -180,16 +183,24 @@ func vfH_dial_logic() {
 			}
 		case 2: // wss
 			in.scheme = "wss"
-			switch vfChoose(4) {
+			in.d.TLSClientConfig = &tls.Config{}
+			switch vfChoose(5) {
 			case 1:
-				in.d.TLSClientConfig = &tls.Config{ServerName: "override.example"}
+				in.d.TLSClientConfig.ServerName = "override.example"
 			case 2:
-				in.d.TLSClientConfig = &tls.Config{InsecureSkipVerify: true}
+				in.d.TLSClientConfig.InsecureSkipVerify = true
 			case 3:
 				in.hookTLS = true
+			case 4:
+				in.d.TLSClientConfig = nil // library default configuration (system roots: engine only)
+				in.nilTLSConfig = true
 			}
-			if vfChoose(3) == 1 {
-				vfTLSFail = 1 + vfChoose(2)
+			// the backend's certificate: valid for the name to verify / for another host / untrusted
+			switch vfChoose(3) {
+			case 1:
+				in.certName = "other.example"
+			case 2:
+				in.certTrusted = false
 			}
 		case 3: // dial hooks
 			switch vfChoose(3) {
@@ -205,6 +216,12 @@ func vfH_dial_logic() {
 			in.proxyCred = vfChoose(3)
 			if vfChoose(2) == 1 {
 				in.scheme = "wss"
+			}
+			if in.proxy == 2 || in.scheme == "wss" {
+				in.d.TLSClientConfig = &tls.Config{}
+				if in.scheme == "wss" && vfChoose(2) == 1 {
+					in.certName = "other.example"
+				}
 			}
 		case 5: // Dialer options
 			switch vfChoose(4) {
@@ -293,6 +310,10 @@ func vfH_dial_logic() {
 			in.scheme = "wss"
 			in.d.TLSClientConfig = &tls.Config{}
 			in.second = true
+			// the second backend presents a certificate that is valid for the FIRST host
+			if vfChoose(2) == 1 {
+				in.certName = "first.example"
+			}
 		}
 	}
 	// URL string and what a URL parser makes of it
@@ -394,7 +415,7 @@ func vfH_dial_logic() {
 	spec := &vfRespSpec{status: in.status, statusCode: in.code, header: rh, body: body}
 	vfRespQueue = append(vfRespQueue, spec)
 	scripted := false
-	var script func(key string)
+	var script func(key string) []byte
 	vfOnRequest = func(r *http.Request) {
 		if r.Method != "GET" {
 			return
@@ -432,7 +453,8 @@ func vfH_dial_logic() {
 		}
 		script(key)
 	}
-	script = func(key string) {
+	nativeTLS := false
+	script = func(key string) []byte {
 		scripted = true
 		switch in.accept {
 		case 0:
@@ -443,15 +465,68 @@ func vfH_dial_logic() {
 		}
 		head := vfHeadBytes(in.status, order, rh)
 		spec.headLen = len(head)
-		tc.in = append(tc.in, head...)
-		tc.in = append(tc.in, body...)
-		tc.in = append(tc.in, gen.wire...)
-		tc.cut = len(tc.in)
+		out := append(append(append([]byte(nil), head...), body...), gen.wire...)
+		if !nativeTLS {
+			tc.in = append(tc.in, out...)
+			tc.cut = len(tc.in)
+		}
+		return out
 	}
 	vfAllocBound(12000)
-	cfgServerName := ""
+	cfgServerName, skipVerify := "", false
 	if in.d.TLSClientConfig != nil {
 		cfgServerName = in.d.TLSClientConfig.ServerName // as configured by the application
+		skipVerify = in.d.TLSClientConfig.InsecureSkipVerify
+		vfClientTLSBase(in.d.TLSClientConfig)
+	}
+	// the name the client has to verify the backend's certificate for
+	expectName := vfHostNoPort(in.host)
+	if cfgServerName != "" {
+		expectName = cfgServerName
+	}
+	certName := in.certName
+	if certName == "" {
+		certName = expectName
+	}
+	tlsByLib := in.scheme == "wss" && !(in.hookTLS && in.proxy == 0)
+	tlsOK := !tlsByLib || skipVerify || (in.certTrusted && certName == expectName)
+	// the TLS peers the dial will meet, in order
+	var hops []vfHop
+	if in.proxy == 2 {
+		vfTLSPeers = append(vfTLSPeers, vfTLSPeer{certName: "secure-proxy.example", trusted: true})
+		hops = append(hops, vfHop{tls: true, name: "secure-proxy.example", trusted: true})
+	}
+	if in.proxy > 0 {
+		hops = append(hops, vfHop{connect: true})
+	}
+	if tlsByLib {
+		vfTLSPeers = append(vfTLSPeers, vfTLSPeer{certName: certName, trusted: in.certTrusted})
+		hops = append(hops, vfHop{tls: true, name: certName, trusted: in.certTrusted})
+	}
+	usesTLS := in.proxy == 2 || tlsByLib
+	if !vfSymbolic() && usesTLS && in.d.TLSClientConfig != nil {
+		// native replay: a real TLS peer behind a pipe
+		nativeTLS = true
+		tc.onWrite = nil
+		startPeer := func(hs []vfHop, reply func(*http.Request) []byte) {
+			cl, sv := net.Pipe()
+			tc.pipe = cl
+			go vfNativePeer(sv, hs, reply)
+		}
+		startPeer(hops, func(r *http.Request) []byte { return script(r.Header.Get("Sec-WebSocket-Key")) })
+		defer func() {
+			if tc.pipe != nil {
+				tc.pipe.Close()
+			}
+		}()
+		if in.second {
+			vfFirstPeer = func() {
+				startPeer([]vfHop{{tls: true, name: "first.example", trusted: true}}, func(*http.Request) []byte { return []byte("garbage\r\n\r\n") })
+			}
+			vfSecondPeer = func() {
+				startPeer(hops, func(r *http.Request) []byte { return script(r.Header.Get("Sec-WebSocket-Key")) })
+			}
+		}
 	}
 	if in.second {
 		// an earlier dial to another host with the same Dialer: whatever it did to
@@ -464,7 +539,17 @@ func vfH_dial_logic() {
 		vfOnRequest = nil
 		saveW := tc.onWrite
 		tc.onWrite = nil
+		savePeers := vfTLSPeers
+		vfTLSPeers = []vfTLSPeer{{certName: "first.example", trusted: true}}
+		if vfFirstPeer != nil {
+			vfFirstPeer()
+		}
 		fc, _, _ := in.d.DialContext(&vfCtx{}, first, nil)
+		vfTLSPeers = savePeers
+		if vfSecondPeer != nil {
+			vfSecondPeer()
+		}
+		vfFirstPeer, vfSecondPeer = nil, nil
 		vfAssert(fc == nil, "first-dial-fails-harmlessly") // no reply was scripted for it
 		vfRespQueue, vfOnRequest, tc.onWrite = saveQ, hook, saveW
 		vfReqLog, vfTLSLog = nil, nil
@@ -501,13 +586,11 @@ func vfH_dial_logic() {
 			nconnect++
 		}
 	}
-	faulted := in.dialFail || vfReqWriteFail > 0 || tc.wfailed || vfTLSFail > 0
-	tlsByLib := in.scheme == "wss" && !(in.hookTLS && in.proxy == 0)
-	if vfTLSFail > 0 && !tlsByLib {
-		faulted = false
-	}
-	if vfTLSFail == 2 && in.d.TLSClientConfig != nil && in.d.TLSClientConfig.InsecureSkipVerify && !in.dialFail {
-		faulted = false // verification is skipped on request, so it cannot fail
+	faulted := in.dialFail || vfReqWriteFail > 0 || tc.wfailed || !tlsOK
+	if wsReq != nil && in.scheme == "wss" {
+		// C18: the handshake request left only inside a TLS session whose peer
+		// certificate was verified for the URL's host (or the configured name)
+		vfAssert(tlsOK, "c18-wss-request-only-inside-verified-tls")
 	}
 	if wsReq != nil {
 		// (c) a well-formed opening handshake for the given URL
@@ -707,20 +790,18 @@ func vfH_dial_logic() {
 		if wsReq != nil && in.scheme == "wss" {
 			// the request went out only inside a verified TLS session (unless the
 			// application's own TLS dial function is trusted with that)
-			if tlsByLib {
+			if tlsByLib && vfSymbolic() {
+				// call trace (engine only: natively the real crypto/tls ran and the
+				// verdict above rests on the certificate the peer really presented)
 				ok := false
-				wantName := vfHostNoPort(in.host)
-				if cfgServerName != "" {
-					wantName = cfgServerName
-				}
 				for _, r := range vfTLSLog {
-					verified := r.verified == wantName || r.skipVerify
-					if r.handshook && verified && r.serverName == wantName {
+					verified := r.verified == expectName || r.skipVerify
+					if r.handshook && verified && r.serverName == expectName {
 						ok = true
 					}
 				}
 				vfAssert(ok, "c18-wss-request-only-inside-verified-tls")
-			} else {
+			} else if vfSymbolic() {
 				backendTLS := 0
 				for _, r := range vfTLSLog {
 					if r.serverName == vfHostNoPort(in.host) {
@@ -730,13 +811,14 @@ func vfH_dial_logic() {
 				vfAssert(backendTLS == 0, "c18-custom-tls-dialer-is-trusted")
 			}
 		}
-		if wsReq != nil && in.scheme == "ws" && in.proxy != 2 {
+		if wsReq != nil && in.scheme == "ws" && in.proxy != 2 && vfSymbolic() {
 			vfAssert(len(vfTLSLog) == 0, "c18-no-tls-for-ws")
 		}
 	}
 }
 
 var vfOnRequest func(r *http.Request)
+var vfFirstPeer, vfSecondPeer func()
 
 func vfListsHave(lines []string, value string) bool {
 	r := false
